@@ -30,10 +30,12 @@ NvOk(r) ==
     /\ (r.variant # "err" => NvResolveOk(r.variant, Dec(r.tv), min, max, r.hasdef, Dec(r.def), f))
     /\ (f.k = "ok" => (~IsNan(f.v) /\ DCmp(min, f.v) <= 0 /\ DCmp(f.v, max) <= 0))   \* never leaves [min, max]
 
+(* a decimal literal the LEXER refused: allowed (with a command error) only beyond the 488.2 size limits *)
+LexRefusedOk(r) == r.via = "lexer" /\ r.kind = "num" /\ Beyond4882(r.lit) /\ IsCmdErr(r.obs)
 RowOk(r) ==
-    CASE r.t = "int"  -> IntOk(r.ty, r.kind, r.lit, r.val, r.obs)
-      [] r.t = "bool" -> BoolOk(r.kind, r.lit, r.obs)
-      [] r.t = "flt"  -> FloatOk(r.kind, r.lit, r.obs)
+    CASE r.t = "int"  -> LexRefusedOk(r) \/ IntOk(r.ty, r.kind, r.lit, r.val, r.obs)
+      [] r.t = "bool" -> LexRefusedOk(r) \/ BoolOk(r.kind, r.lit, r.obs)
+      [] r.t = "flt"  -> LexRefusedOk(r) \/ FloatOk(r.kind, r.lit, r.obs)
       [] r.t = "acc"  -> AcceptOk(r.target, r.kind, r.utf8ok, r.obs)
       [] r.t = "nv"   -> NvOk(r)
       [] OTHER -> FALSE
